@@ -104,7 +104,8 @@ fn in_band(x: f64) -> bool {
 }
 
 fn rel(v: f64) -> RD {
-    if in_band(v) {
+    // a Decimal resolves 1e-28 absolutely: results below 1e-18 cannot carry ten significant digits
+    if in_band(v) && v.abs() >= 1e-18 {
         RD::Rel(v, 1e-9)
     } else if v.is_finite() && v.abs() > 7.93e28 {
         RD::MustErr
@@ -137,6 +138,16 @@ fn pow_ref(a: &Rat, b: &Rat) -> RD {
         rel(rf::c_pow(x, y))
     } else {
         RD::Unspec
+    }
+}
+
+/// Tolerance-checked function of operands that were rounded to doubles: the f64 reference decides
+/// the value and, through its conditioning guard, whether the point may be judged at all.
+fn guarded(f: Func, a: &[f64]) -> RD {
+    let r = rf::func_ref(f, a);
+    match r.q {
+        rf::Q::Rel(_) | rf::Q::Exact | rf::Q::NumEq => rel(r.v),
+        _ => RD::Unspec,
     }
 }
 
@@ -227,13 +238,11 @@ pub fn func(f: Func, a: &[Rat]) -> RD {
             Func::Ln | Func::Lb => {
                 if x.is_neg() || x.is_zero() {
                     RD::MustErr
+                } else if x.eq(&Rat::from_int(1)) {
+                    RD::Exact(Rat::from_int(0))
                 } else if in_band(xf) {
-                    let v = if f == Func::Ln { libm::log(xf) } else { libm::log2(xf) };
-                    if v == 0.0 {
-                        RD::Exact(Rat::from_int(0))
-                    } else {
-                        rel(v)
-                    }
+                    // the argument was rounded to a double: only well-conditioned points get a verdict
+                    guarded(f, &[xf])
                 } else {
                     RD::Unspec
                 }
@@ -241,7 +250,7 @@ pub fn func(f: Func, a: &[Rat]) -> RD {
             Func::Log => {
                 let b = a[1].to_f64();
                 if in_band(xf) && in_band(b) && xf > 0.0 && b > 0.0 && (b - 1.0).abs() > 1e-6 && (xf - 1.0).abs() > 1e-6 {
-                    rel(libm::log(xf) / libm::log(b))
+                    guarded(f, &[xf, b])
                 } else {
                     RD::Unspec
                 }
@@ -250,14 +259,16 @@ pub fn func(f: Func, a: &[Rat]) -> RD {
                 if x.is_zero() {
                     RD::Exact(Rat::from_int(1))
                 } else if in_band(xf) {
-                    rel(libm::exp(xf))
+                    guarded(f, &[xf])
                 } else {
                     RD::Unspec
                 }
             }
             Func::Exp2 => {
-                if in_band(xf) || x.is_zero() {
-                    rel(libm::exp2(xf))
+                if x.is_zero() {
+                    RD::Exact(Rat::from_int(1))
+                } else if in_band(xf) {
+                    guarded(f, &[xf])
                 } else {
                     RD::Unspec
                 }
@@ -267,7 +278,7 @@ pub fn func(f: Func, a: &[Rat]) -> RD {
                 let n = xf;
                 let v = a[1].to_f64();
                 if v > 0.0 && in_band(v) && in_band(n) {
-                    rel(libm::pow(v, 1.0 / n))
+                    guarded(f, &[n, v])
                 } else {
                     RD::Unspec
                 }
@@ -282,6 +293,21 @@ pub fn func(f: Func, a: &[Rat]) -> RD {
             _ => RD::Unspec,
         }
     }
+}
+
+/// every partial sum of `xs`, in any order, is representable without rounding
+fn sums_exact(xs: &[Rat]) -> bool {
+    let mut max_scale = 0u32;
+    let mut total = Rat::from_int(0);
+    for x in xs {
+        match x.as_decimal(28) {
+            Some((_, _, s)) => max_scale = max_scale.max(s),
+            None => return false,
+        }
+        total = total.add(&x.abs());
+    }
+    let scaled = total.mul(&Rat::from_bigi(crate::bigint::BigI::from_mag(false, BigU::pow10(max_scale))));
+    scaled.cmp(&dec_max()) != Ordering::Greater
 }
 
 pub fn agg(f: Func, xs: &[Rat]) -> RD {
@@ -305,8 +331,10 @@ pub fn agg(f: Func, xs: &[Rat]) -> RD {
                     pos = pos.add(x)
                 }
             }
-            // a running sum that leaves the range in some order: value unspecified
-            if pos.cmp(&dec_max()) == Ordering::Greater || neg.abs().cmp(&dec_max()) == Ordering::Greater || pos.as_decimal(28).is_none() || neg.as_decimal(28).is_none() || sum.as_decimal(28).is_none() {
+            // a running sum that needs rounding in some order: value unspecified. Every partial sum is
+            // representable iff the sum of the magnitudes fits at the largest scale among the arguments.
+            let _ = (&pos, &neg);
+            if !sums_exact(xs) {
                 return RD::Unspec;
             }
             binop(Op::Div, &sum, &Rat::from_int(xs.len() as i128))
@@ -317,7 +345,7 @@ pub fn agg(f: Func, xs: &[Rat]) -> RD {
                 RD::Exact(s[n / 2].clone())
             } else {
                 let t = s[n / 2 - 1].add(&s[n / 2]);
-                if t.abs().cmp(&dec_max()) == Ordering::Greater || t.as_decimal(28).is_none() {
+                if !sums_exact(&[s[n / 2 - 1].clone(), s[n / 2].clone()]) {
                     return RD::Unspec;
                 }
                 binop(Op::Div, &t, &Rat::from_int(2))
@@ -431,7 +459,8 @@ pub fn judge(r: &RD, out: &Outcome, panic_counts: bool) -> Option<(&'static str,
         }
         (RD::Rel(v, t), Some(d)) => {
             let g = rat_of(d).to_f64();
-            if rf::close(g, *v, *t) {
+            // one unit of the last representable place (1e-28) of slack on top of the relative tolerance
+            if rf::close(g, *v, *t) || (g - *v).abs() <= 1e-28 {
                 None
             } else {
                 Some(("outside-tolerance", format!("expected {:?} within {:e}, got {:?}", v, t, g)))
